@@ -5,7 +5,8 @@ usage: verify_seed.py C07 m1   -> writes /tmp/wtout/C07/m1/verify.json
 """
 import json, os, subprocess, sys, time, xml.etree.ElementTree as ET
 prop, m = sys.argv[1], sys.argv[2]
-wt, out = f'/tmp/wt/{prop}', f'/tmp/wtout/{prop}/{m}'
+wt = os.path.join(os.environ.get('SEED_WT', '/tmp/wt'), prop)
+out = os.path.join(os.environ.get('SEED_OUT', '/tmp/wtout'), prop, m)
 env = dict(os.environ, PYTHONPATH=wt, JAX_PLATFORMS='cpu')
 def sh(cmd, timeout=1500):
   t = time.time()
